@@ -140,7 +140,7 @@ def ref_fl(f_cfg, rho):
         s = 0.5 * s2
         # (-Delta)^s of the UEG density matrix at coincidence: (1/pi^2) int_0^kf k^(2+2s) dk
         vals.append(integrate.quad(lambda k: k ** (2 + 2 * s) / np.pi ** 2, 0, kf, epsabs=0, epsrel=1e-12)[0])
-    vals += [0.0] * (len(f_cfg["dots"]) + f_cfg["ndd"])
+    vals += [0.0] * (len(f_cfg["dots"]) + len(f_cfg.get("lddots", [])) + f_cfg["ndd"])
     return np.array(vals)
 
 
